@@ -419,6 +419,11 @@ def mosek_real_solve(task, world):
         raise mosek.Error("stand-in: the optimizer failed (spontaneous)")
     st = prob.status
     dims = list(task.bardims)
+    if st == "optimal_inaccurate" and world.cur is not None:
+        # the real solver behind the stand-in says its answer is inaccurate: a spontaneous peer fault (no verdict on
+        # anything that depends on accuracy), exactly as on the cvxpy transport where PEPit sees that status itself
+        world.cur.spont_flag = True
+        world.note("standin_real_solver_reported_inaccurate")
     if st in ("optimal", "optimal_inaccurate"):
         sgn = 1.0 if maximize else -1.0
         y = np.zeros(task.ncon)
